@@ -45,11 +45,16 @@ def from_emission(j):
     elif k == "interp":
         out.append({"fn": "interp", "x": X, "y": Y, "q": [R(Fraction(v, 2)) for v in op["q2"]], "left": NONE if op["left"] == NB else R(op["left"])})
     elif k == "winterp":
-        out.append({"fn": "winterp", "mode": "n", "x": X, "y": Y, "n": op["n"]})
+        out.append({"fn": "winterp", "mode": "n", "x": X, "y": Y, "n": op["n"], "method": "linear"})
+        for me in (("constant", "cubic", "spline") if len(X) >= 4 else ("constant",)):
+            out.append({"fn": "winterp", "mode": "n", "x": X, "y": Y, "n": op["n"], "method": me})
     elif k == "wgrid":
         q = [R(Fraction(v, 2)) for v in op["q2"]]
-        out.append({"fn": "winterp", "mode": "grid", "x": X, "y": Y, "q": q})
-        out.append({"fn": "winterp", "mode": "grid", "x": X, "y": Y, "q": q, "qcontainer": "list"})
+        out.append({"fn": "winterp", "mode": "grid", "x": X, "y": Y, "q": q, "method": "linear"})
+        out.append({"fn": "winterp", "mode": "grid", "x": X, "y": Y, "q": q, "qcontainer": "list", "method": "linear", "explicit_method": True})
+        if len(X) >= 4:
+            out.append({"fn": "winterp", "mode": "grid", "x": X, "y": Y, "q": q, "method": "cubic"})
+            out.append({"fn": "winterp", "mode": "grid", "x": X, "y": Y, "q": q, "method": "constant"})
     elif k == "trend":
         out.append({"fn": "trend", "x": X, "y": Y, "c": [R(v) for v in op["c"]], "normalized": op["normalized"]})
         out.append({"fn": "linear_trend", "x": X, "y": Y, "a": R(op["c"][1]), "normalized": op["normalized"]})
@@ -112,7 +117,8 @@ def random_cases(family, rng, count):
         elif family == "interp":
             q = sorted(rng.choice([rng.choice(xs), xs[0] + span * Fraction(rng.randint(-4, 20), 16)]) for _ in range(rng.randint(1, 12)))
             out.append({"fn": "interp", "x": X, "y": Y, "q": [R(v) for v in q], "left": rng.choice([NONE, R(Fraction(rng.randint(-9, 9), 2))])})
-            out.append({"fn": "winterp", "mode": "n", "x": X, "y": Y, "n": rng.choice([2, 3, 5, 9, 17, 33, 2 * n + 1])})
+            out.append({"fn": "winterp", "mode": "n", "x": X, "y": Y, "n": rng.choice([2, 3, 5, 9, 17, 33, n, 2 * n + 1]),
+                        "method": rng.choice(["linear", "linear", "constant", "cubic", "spline"]) if n >= 4 else "linear"})
         elif family == "pointwise":
             c = [R(Fraction(rng.randint(-8, 8), 4)) for _ in range(3)]
             xs2, ys2 = rseries(rng, 2, 12, den=2)
@@ -129,7 +135,7 @@ def random_cases(family, rng, count):
 
 
 CASE_KEYS = ("fn", "x", "y", "r", "a", "b", "left", "right", "lr", "rr", "start", "stop", "step", "explicit_none", "q", "n", "mode",
-             "qcontainer", "c", "normalized", "axis", "other", "lo", "hi", "op", "v", "container", "method", "m", "b")
+             "qcontainer", "explicit_method", "c", "normalized", "axis", "other", "lo", "hi", "op", "v", "container", "method", "m", "b")
 
 
 def case_of_event(ev):
